@@ -1,19 +1,24 @@
 package coresim
 
-// Extension of the scenario runner for C05 (spec/Placement*.tla): one OFFERS round per scenario.
+// Extension of the scenario runner for C05 (spec/Placement*.tla): OFFERS rounds of a fresh core.
 //
-//   {"do":"c05_round","env":"e1","wf":"<workflow>","timeout_ms":8000}
+//   {"do":"c05_round","env":"e1","wf":"<workflow>","timeout_ms":8000,"n":1}
 //
 // Needs a child core (scenario "core": {"child": true}). The step makes sure a fresh core process is
 // running, asks it to create an environment from <workflow> (which sends the deployment request and
 // REVIVEs the offers), and waits until the simulated master has the core's answer to every offer of
-// the FIRST OFFERS event (a DECLINE, or an ACCEPT that launches something; an offer answered by an
+// the next OFFERS event (a DECLINE, or an ACCEPT that launches something; an offer answered by an
 // ACCEPT without operations only is given 250 ms for its DECLINE - such an offer counts as declined for
-// the property either way, the wait only matters for conformance) - or until the core process is gone. It then records
-//     C05Round{complete, alive, panic}
-// (panic = the Go panic message found in the core's log with the first frame inside core/task) and
-// kills the core: the retries of a failed deployment (manager.go acquireTasks) are of no interest
-// here, and the next scenario starts from a clean core.
+// the property either way, the wait only matters for conformance) - or until the core process is gone.
+// It records
+//     C05Round{k, complete, alive, panic}
+// (panic = the Go panic message found in the core's log with the first frame inside core/task).
+// With n > 1 it then asks the SAME core for another environment from the same workflow (k = 2..n) and
+// treats its OFFERS round likewise: the task manager's class registry, and whatever a deployment left
+// in it, is what the next deployment works with. This presumes that every round places everything it
+// is asked for (the task manager is free again at once); the step stops at the first round that is not
+// answered. Finally the core is killed: the retries of a failed deployment (manager.go acquireTasks)
+// are of no interest here, and the next scenario starts from a clean core.
 
 import (
 	"bufio"
@@ -53,7 +58,7 @@ func c05Round(r *Runner, st *Step, ctx context.Context) {
 		}
 		before := r.Master.SubscribeCount()
 		if err := r.StartChild(); err != nil {
-			r.Emit("C05Round", "complete", false, "alive", false, "panic", "", "error", "cannot start core: "+err.Error())
+			r.Emit("C05Round", "k", 1, "complete", false, "alive", false, "panic", "", "error", "cannot start core: "+err.Error())
 			r.setTainted()
 			return
 		}
@@ -62,7 +67,42 @@ func c05Round(r *Runner, st *Step, ctx context.Context) {
 			time.Sleep(5 * time.Millisecond)
 		}
 	}
-	// watch the master's record for the answers to the first OFFERS event
+	cl, conn, err := Dial(r.Opts.ControlPort)
+	if err != nil {
+		r.Emit("C05Round", "k", 1, "complete", false, "alive", c05ChildAlive(r), "panic", "", "error", "dial: "+err.Error())
+		r.setTainted()
+		return
+	}
+	cctx, ccancel := context.WithCancel(context.Background())
+	timeout := time.Duration(st.TimeoutMs) * time.Millisecond
+	if timeout == 0 {
+		timeout = 8 * time.Second
+	}
+	n := st.N
+	if n < 1 {
+		n = 1
+	}
+	// n deployments of the same workflow in the same core, one after the other: the task manager's class
+	// registry (and whatever a deployment left in it) is what the next deployment works with
+	for k := 1; k <= n; k++ {
+		complete, alive, what := c05OneDeployment(r, cl, cctx, st, k, timeout)
+		r.Emit("C05Round", "k", k, "complete", complete, "alive", alive, "panic", what, "error", "")
+		if !complete || !alive {
+			break
+		}
+	}
+	// the core goes first: a cancelled request would make it tear the environment down and revive the offers
+	if r.child != nil {
+		r.child.Kill()
+		r.child = nil
+	}
+	ccancel()
+	conn.Close()
+}
+
+// c05OneDeployment asks for one more environment and waits for the answers to the next OFFERS event.
+func c05OneDeployment(r *Runner, cl pb.ControlClient, cctx context.Context, st *Step, k int, timeout time.Duration) (complete, alive bool, what string) {
+	// watch the master's record for the answers to the next OFFERS event
 	var mu sync.Mutex
 	pending := map[string]bool{}    // offers without a DECLINE or a launching ACCEPT
 	unanswered := map[string]bool{} // offers without any call at all
@@ -71,9 +111,6 @@ func c05Round(r *Runner, st *Step, ctx context.Context) {
 	answered := make(chan struct{})
 	saved := r.Master.Rec
 	r.Master.Rec = func(ev string, kv ...interface{}) {
-		saved(ev, kv...)
-		mu.Lock()
-		defer mu.Unlock()
 		get := func(key string) interface{} {
 			for i := 0; i+1 < len(kv); i += 2 {
 				if kv[i] == key {
@@ -82,6 +119,24 @@ func c05Round(r *Runner, st *Step, ctx context.Context) {
 			}
 			return nil
 		}
+		if ev == "MAccept" {
+			// which task role a launched task belongs to: the scenario's templates export it as C05_ROLE
+			// (several roles may load the same task class); added to the master's record as "tag"
+			if tasks, ok := get("tasks").([]map[string]interface{}); ok {
+				for _, x := range tasks {
+					if t := r.Master.Task(fmt.Sprint(x["task"])); t != nil {
+						for _, e := range t.Cmd.Env {
+							if strings.HasPrefix(e, "C05_ROLE=") {
+								x["tag"] = strings.TrimPrefix(e, "C05_ROLE=")
+							}
+						}
+					}
+				}
+			}
+		}
+		saved(ev, kv...)
+		mu.Lock()
+		defer mu.Unlock()
 		switch ev {
 		case "MOffers":
 			if !seenOffers {
@@ -120,22 +175,10 @@ func c05Round(r *Runner, st *Step, ctx context.Context) {
 			close(done)
 		}
 	}
-	cl, conn, err := Dial(r.Opts.ControlPort)
-	if err != nil {
-		r.Master.Rec = saved
-		r.Emit("C05Round", "complete", false, "alive", c05ChildAlive(r), "panic", "", "error", "dial: "+err.Error())
-		r.setTainted()
-		return
-	}
-	cctx, ccancel := context.WithCancel(context.Background())
 	go func() {
-		cl.NewEnvironment(cctx, &pb.NewEnvironmentRequest{WorkflowTemplate: st.Wf, Vars: map[string]string{"verif_alias": st.Env}})
+		cl.NewEnvironment(cctx, &pb.NewEnvironmentRequest{WorkflowTemplate: st.Wf,
+			Vars: map[string]string{"verif_alias": fmt.Sprintf("%s_%d", st.Env, k)}})
 	}()
-	timeout := time.Duration(st.TimeoutMs) * time.Millisecond
-	if timeout == 0 {
-		timeout = 8 * time.Second
-	}
-	complete := false
 	select {
 	case <-done:
 		complete = true
@@ -154,23 +197,16 @@ func c05Round(r *Runner, st *Step, ctx context.Context) {
 	// the ACCEPT calls of the other offers are sent concurrently with the DECLINE: let them land
 	time.Sleep(30 * time.Millisecond)
 	r.Master.Rec = saved
-	alive := c05ChildAlive(r)
+	alive = c05ChildAlive(r)
 	if !alive {
 		time.Sleep(50 * time.Millisecond)
 	}
-	what := ""
 	logs, _ := filepath.Glob(filepath.Join(r.Work, "core-*.log"))
 	sort.Strings(logs)
 	if len(logs) > 0 {
 		what = panicInLog(logs[len(logs)-1])
 	}
-	r.Emit("C05Round", "complete", complete, "alive", alive, "panic", what, "error", "")
-	ccancel()
-	conn.Close()
-	if r.child != nil {
-		r.child.Kill()
-		r.child = nil
-	}
+	return
 }
 
 func panicInLog(path string) string {
